@@ -16,7 +16,7 @@ EXPLANATION = ("(table) real create_random_shuffles(k, seed) with numpy.random r
                "the first emitted arcs are live and coincide exactly when the first digits coincide")
 STUBS = ["numpy.random.seed / shuffle: contract stub (arbitrary permutation in place; calls logged)", stubs.STUB_NOTE + " (bij side)"]
 ASSUMPTIONS = ["numpy's Mersenne Twister is deterministic for a given seed (trusted; exercised concretely in the replay oracle)"]
-BUDGET_S = {"quick": 900, "thorough": 3600}
+BUDGET_S = {"quick": 900, "thorough": 1500}
 
 
 def make_loader(cfg):
@@ -140,12 +140,14 @@ def body_bij(e, L, cfg):
 
 def replay(cex, repo_dir):
     if cex.get("kind") == "bijection":
-        a = dict(cex, kind="coding", check="all")
-        ok, d = common.run_replay("coding", a, repo_dir)
+        ok, d = common.run_replay("bijection", cex, repo_dir)
         if ok:
             return ok, d
-        b = dict(a, bits=cex["bits2"])
-        return common.run_replay("coding", b, repo_dir)
+        for bits in (cex["bits"], cex["bits2"]):           # a strand that leaves the graph / differs from the scheme also refutes it
+            ok2, d2 = common.run_replay("coding", dict(cex, kind="coding", check="all", bits=bits), repo_dir)
+            if ok2:
+                return ok2, d2
+        return ok, d
     return common.run_replay(cex["kind"], cex, repo_dir)
 
 
